@@ -36,6 +36,8 @@ class Gen:
         self.nacc = 0
         self.accs = {}
         self.ops = []
+        self.owns = {}      # body -> shared trackables co-owned by every functor copy with that body
+        self.shared_held = []
 
     # -- id management
     def fresh(self, kind, lo=0):
@@ -110,6 +112,9 @@ class Gen:
                 c = r.choice([2, 2, 3])
                 ops.append(r.choice(["aderef %d" % c, "ainc %d" % c, "adec %d" % c, "acopy %d %d" % (c, r.choice([0, 1, 2, 3])),
                                      "awalk %d" % c, "awalkuntil %d %d" % (c, r.randint(0, 30)), "awalkrev %d" % c, "aderef %d" % c]))
+        # half of the scripts use the postfix operators of the iterator (same meaning)
+        if r.random() < 0.5:
+            ops = [o.replace("ainc ", "aincp ").replace("adec ", "adecp ").replace("awalk ", "awalkp ").replace("awalkrev ", "awalkrevp ") for o in ops]
         self.accs[a] = ops
         return a
 
@@ -120,7 +125,10 @@ class Gen:
             # prefer a slot of the matching kind
             rk = self.sg.get(g, ("i",))[0]
             cands = [x for x, k in self.sl.items() if k == rk]
-            if not cands or self.r.random() < 0.35:
+            # with shared ownership in play only freshly made (hence non-empty) slots are connected: a
+            # connected *empty* slot is dropped by whichever sweep comes next, and the model performs
+            # ownership cascades at the end of the operation rather than inside the library call
+            if not cands or self.r.random() < 0.35 or self.owns:
                 out += self.new_slot(rk=rk)
                 s = max(self.sl)
             else:
@@ -135,7 +143,7 @@ class Gen:
                 c = self.fresh("c")
                 self.cn.append(c)
         front = 1 if self.r.random() < 0.3 else 0
-        mv = 1 if self.r.random() < 0.2 else 0
+        mv = 1 if (self.r.random() < 0.2 and not self.owns) else 0
         out.append("gconn %d %d %d %d %d" % (g, s, c, front, mv))
         return out
 
@@ -351,8 +359,9 @@ class Gen:
                 s = self.fresh("s", 100)
                 c = self.fresh("c", 100)
                 ops.append("snew %d %s %d p 0" % (s, rk, r.randint(1, self.nbodies)))
-                ops.append("gconn %d %d %d %d %d" % (g, s, c, 1 if r.random() < 0.3 else 0, 1 if r.random() < 0.3 else 0))
-                ops.append("gconn %d %d -1 0 0" % (g, r.choice(sorted(self.used["s"]))))
+                ops.append("gconn %d %d %d %d %d" % (g, s, c, 1 if r.random() < 0.3 else 0, 1 if (r.random() < 0.3 and not self.owns) else 0))
+                if not self.owns:
+                    ops.append("gconn %d %d -1 0 0" % (g, r.choice(sorted(self.used["s"]))))
             elif ch < 0.33 and self.used["g"]:
                 ops.append("gclear %d" % r.choice(sorted(self.used["g"])))
             elif ch < 0.41 and self.used["c"]:
@@ -396,6 +405,15 @@ class Gen:
         if self.w["track"]:
             for _ in range(r.randint(0, 3)):
                 main += self.new_track()
+            # shared ownership: a trackable kept alive by functor copies (std::shared_ptr captured by the functor)
+            if r.random() < 0.4:
+                for _ in range(r.choice([1, 1, 2])):
+                    t = self.fresh("t")
+                    self.tr.append(t)
+                    self.shared_held.append(t)
+                    main.append("tnewsh %d" % t)
+                    b = r.randint(1, self.nbodies)
+                    self.owns.setdefault(b, []).append(t)
         for _ in range(r.randint(1, 2)):
             main += self.new_sig()
         for _ in range(r.randint(1, 4)):
@@ -404,6 +422,11 @@ class Gen:
             main += self.one()
             if r.random() < 0.08:
                 main.append("probe")
+            if self.shared_held and r.random() < 0.12:
+                t = self.shared_held.pop()
+                if t in self.tr:
+                    self.tr.remove(t)
+                main.append("trel %d" % t)
         if self.sg and r.random() < 0.8:
             main += self.emit()
         if self.w["reent"] or self.w["throw"]:
@@ -416,6 +439,8 @@ class Gen:
                 main += self.emit()
                 main += ["gq %d" % g for g in list(self.sg)[:2]]
         main.append("probe")
+        for t in self.shared_held:
+            main.append("trel %d" % t)
         main += self.teardown()
         main.append("probe")
         parts = []
@@ -424,6 +449,8 @@ class Gen:
             parts.append("S %d %s %s" % (b, rs, " ".join(ops)))
         for a, ops in self.accs.items():
             parts.append("A %d %s" % (a, " ".join(ops)))
+        for b, ts in self.owns.items():
+            parts.append("O %d %d %s" % (b, len(ts), " ".join(map(str, ts))))
         parts.append("M " + " ".join(main))
         return " ".join(" ".join(parts).split())
 
@@ -441,3 +468,61 @@ if __name__ == "__main__":
     import sys
     for p in generate(int(sys.argv[1]), sys.argv[2], int(sys.argv[3])):
         print(p)
+
+
+# ---------------------------------------------------------------------------------------------
+# scenario skeletons aimed at the case splits of the proofs (position x action x lifetime)
+
+def scenario_owner_sweep(r):
+    """a functor co-owning a shared trackable is disconnected during an emission; the sweep that
+    erases it destroys the trackable, which invalidates another slot of the same signal (before or
+    after it) while the sweep is running"""
+    rk = r.choice("iv")
+    T, g = 0, 0
+    bo, ba, bx = 1, 2, 3                      # owner body, bound-to-T body, bystander body
+    main = ["tnewsh %d" % T, "gnew %d %s -1 %d" % (g, rk, r.randint(0, 1))]
+    slots = []                                # (slot id, conn id, kind)
+    order = ["A", "B"] + ["X"] * r.randint(0, 2)
+    r.shuffle(order)
+    sid = 0
+    for k in order:
+        if k == "A":
+            shape = r.choice("mbt")
+            main.append("snew %d %s %d %s 1 %d" % (sid, rk, ba, shape, T))
+        elif k == "B":
+            main.append("snew %d %s %d p 0" % (sid, rk, bo))
+        else:
+            main.append("snew %d %s %d p 0" % (sid, rk, bx))
+        main.append("gconn %d %d %d %d 0" % (g, sid, sid, 1 if r.random() < 0.3 else 0))
+        slots.append((sid, k))
+        sid += 1
+    for s, k in slots:
+        if k != "X" or r.random() < 0.5:
+            main.append("sdel %d" % s)
+    main.append("trel %d" % T)
+    main.append("probe")
+    cB = [s for s, k in slots if k == "B"][0]
+    how = r.choice(["self", "other", "clear"])
+    scripts = {bo: [], ba: [], bx: []}
+    if how == "self":
+        scripts[bo] = ["cdisc %d" % cB]
+    elif how == "other" and any(k == "X" for _, k in slots):
+        scripts[bx] = ["cdisc %d" % cB]
+    else:
+        scripts[bo] = ["cdisc %d" % cB, "gq %d" % g]
+    main += ["gemit %d %d 1" % (g, r.randint(0, 9)), "gq %d" % g, "probe", "gemit %d %d 1" % (g, r.randint(0, 9)), "gq %d" % g]
+    for s, _ in slots:
+        main.append("cq %d" % s)
+    main += ["gdel %d" % g] + ["cdel %d" % s for s, _ in slots] + ["sdel %d" % s for s, _ in slots] + ["probe"]
+    parts = ["S %d a %d %s" % (b, b, " ".join(ops)) for b, ops in scripts.items()]
+    parts.append("O %d 1 %d" % (bo, T))
+    parts.append("M " + " ".join(main))
+    return " ".join(" ".join(parts).split())
+
+
+SCENARIOS = [scenario_owner_sweep]
+
+
+def scenarios(seed, count):
+    r = random.Random("scen-%s" % seed)
+    return [r.choice(SCENARIOS)(r) for _ in range(count)]
